@@ -262,8 +262,39 @@ def stack_check(run, r, tier, seed, log=print):
                 run.violation('stack', dict(definition=r['srcs'][i], config=cfgname, probe=what, unit_hex=P.hexs(unit), observed=out[-200:], exit=rc,
                                             what='state-machine lexer failed on a 4 MiB input with a 64 KiB stack (stack use grows with the input?)'),
                               key='stack|%s|%s' % (cfgname, what))
-            res.setdefault('samples', []).append('%s %s: %s' % (cfgname, what, out[-60:]))
+            # frame model (Stack.lean, lexS_sm_peak): the number of frames between the caller of next() and a callback is
+            # constant, so every invocation of one callback function sees the same stack address
+            m = _re.search(r'spread=(\d+) calls=(\d+)', out)
+            if ok and m and what in SINGLE_CALLBACK_PROBES:
+                res['frame_probes'] = res.get('frame_probes', 0) + 1
+                res['callback_invocations_measured'] = res.get('callback_invocations_measured', 0) + int(m.group(2))
+                if int(m.group(2)) < 2:
+                    res.setdefault('frame_probe_notes', []).append('%s %s: fewer than two callback invocations' % (cfgname, what))
+                elif int(m.group(1)) != 0:
+                    run.violation('stack-frames', dict(definition=r['srcs'][i], config=cfgname, probe=what, unit_hex=P.hexs(unit), observed=out[-200:],
+                                                       what='state-machine lexer: two invocations of the same callback ran at different stack depths (%s bytes apart): the depth depends on what was lexed before; the frame model (lexS_sm_peak: at most three frames) does not describe this build' % m.group(1)),
+                                  key='stackframes|%s|%s' % (cfgname, what))
+            res.setdefault('samples', []).append('%s %s: %s' % (cfgname, what, out[-80:]))
+    # the other direction of the model: tail calls counted without frame reuse grow by a frame per transition and per
+    # restart (attemptS_tc_depth, nextLoopS_tc_skips); a debug build does not reuse frames, so the growth is measurable.
+    # Recorded, never a violation: an optimising build may reuse the frames.
+    for cfgname in r['zoo_out']:
+        if not cfgname.startswith('tail') or 'trace' in cfgname or r['zoo_out'][cfgname] is None:
+            continue
+        binp = os.path.join(P.HARNESS, 'target-zoo', 'zoo-%s-%s' % (r['tier'], cfgname), 'debug', 'zoo')
+        for what in SINGLE_CALLBACK_PROBES:
+            rq = '%d A %s' % (i, P.hexs(probes[what]))
+            try:
+                p = subprocess.run([binp], input=rq + '\n', capture_output=True, text=True, timeout=120)
+                m = _re.search(r'spread=(\d+) calls=(\d+)', p.stdout)
+            except subprocess.TimeoutExpired:
+                m = None
+            if m:
+                res.setdefault('tail_call_debug_growth', []).append(dict(config=cfgname, probe=what, bytes_between_shallowest_and_deepest_callback=int(m.group(1)), callback_invocations=int(m.group(2))))
     return res
+
+
+SINGLE_CALLBACK_PROBES = ('consecutive skips decided by a callback', 'skip items with a callback')
 
 
 # ---------------------------------------------------------------------------------------------
